@@ -9,6 +9,7 @@ TARGETS += [ioc.M_IO + ":IO." + m for m in ("write_line", "write_line_raw", "err
 TARGETS += [ioc.M_SEC + ":SectionOutput.write", ioc.M_SEC + ":SectionOutput.clear", {"qual": ioc.M_OUT + ":Output.write_line", "self_cls": "SectionOutput"}]
 from . import style_contracts as sc
 TARGETS += [sc.M_SC + ":StyleConverter.convert", sc.ANSI_FORMAT_STACK, sc.ADD_STYLE]
+TARGETS += [ioc.OUTPUT_INIT, ioc.M_SEC + ":SectionOutput.overwrite"]
 for _n in (1, 2):
     TARGETS += [{"qual": ioc.M_IND + ":Indent.__init__", "tag": "n%d" % _n},
                 {"qual": ioc.M_IND + ":Indent.__exit__", "tag": "n%d" % _n}]
